@@ -82,7 +82,7 @@ func limbsToBig(limbs []*big.Int, w uint) *big.Int {
 func checkC01(c *Ctx) {
 	p := mustLoad(c, K1)
 	c.Rule("C01.const", "CONSTANTS (L14): for each of the 23 field packages the baked constants agree with each other, recomputed with math/big from the declarations (nothing of the repository is executed): q = sum q_i 2^(w i) equals the hex modulus of init; q is odd; qInvNeg*q = -1 mod 2^w; rSquare = 2^(2wN) mod q; the limbs stored by SetOne are 2^(wN) mod q; Bits = bitlen(q), Bytes = ceil(Bits/8); qElement lists the q_i; the constants subtracted in LexicographicallyLargest are (q-1)/2+1; smallerThanModulus compares limb i with q_i", 23)
-	c.Rule("C01.special", "SPECIAL-CASES: Neg has a zero branch (returns on the true edge of IsZero); Exp inverts the base exactly under a negative exponent and returns one for a zero exponent; Inverse of the multi-limb fields validates its result (IsOne post-check) and falls back to the exponentiation; Sqrt returns nil on a branch guarded by the residuosity test; BatchInvert skips zero entries (IsZero-guarded)", 60)
+	c.Rule("C01.special", "SPECIAL-CASES: every return of Neg lies on a decided edge of the IsZero test of the operand (the zero branch exists); Exp inverts the base only on the negative-exponent edge of Sign(k); Sqrt has a path returning nil (non-residues are reported, not given a root)", 60)
 
 	for _, pk := range fieldPkgs(p) {
 		pkg := p.ByPath[modPath+"/"+pk]
